@@ -1719,6 +1719,15 @@ fn parse_expr_unchecked(
                         }
                     };
 
+                    // A swizzle selects at most four channels
+                    if member.len() > 4 {
+                        return Err(TyperError::InvalidSwizzle(
+                            composite_ty,
+                            member.node.clone(),
+                            member.get_location(),
+                        ));
+                    }
+
                     let mut swizzle_slots = Vec::with_capacity(member.len());
                     for c in member.chars() {
                         swizzle_slots.push(match c {
@@ -1762,6 +1771,15 @@ fn parse_expr_unchecked(
                             ));
                         }
                     };
+
+                    // A swizzle selects at most four channels
+                    if member.len() > 4 {
+                        return Err(TyperError::InvalidSwizzle(
+                            composite_ty,
+                            member.node.clone(),
+                            member.get_location(),
+                        ));
+                    }
 
                     let mut swizzle_slots = Vec::with_capacity(member.len());
                     for c in member.chars() {
